@@ -231,6 +231,12 @@ func (ms MsgServer) InitiateTokenDeposit(ctx context.Context, req *types.MsgInit
 
 	coin := req.Amount
 	bridgeId := req.BridgeId
+
+	// deposits are only accepted for existing bridges
+	if _, err := ms.GetBridgeConfig(ctx, bridgeId); err != nil {
+		return nil, err
+	}
+
 	l1Sequence, err := ms.IncreaseNextL1Sequence(ctx, bridgeId)
 	if err != nil {
 		return nil, err
